@@ -26,7 +26,7 @@ from bounded import oracle as O
 ID = "C06"
 RULE = ("one case = one (dataset, scheme) pair.  'th' cases: partition + theorem only; 'alg' cases additionally run the 4 "
         "ParCons configurations (default, bound 0, bound 2 + KwikSort, bound 0 + BioCo) with cplex absent and with the "
-        "cplex stand-in, 9 heuristic / free-solver configurations and 5 CPLEX-API configurations through the stand-in. "
+        "cplex stand-in, 9 heuristic / free-solver configurations and 3 CPLEX-API configurations through the stand-in. "
         "Datasets: every dataset n<=3, m<=2; seeded generic datasets; seeded 'conflict' datasets (mostly strict rankings, "
         "3-6 rankings, presence probability 0.3-1.0, so that components are cyclic and rankings miss whole components); "
         "block datasets (rankings confined to one of two element blocks).  n<=6 quick / n<=7 thorough, all name kinds, "
@@ -34,9 +34,9 @@ RULE = ("one case = one (dataset, scheme) pair.  'th' cases: partition + theorem
         "distinct = distinct (dataset, scheme).")
 EXHAUSTIVE = {"quick": False, "thorough": False}
 SCOPE = {"quick": "th: 701 datasets (n<=3,m<=2) x 8 schemes + 6000 sampled (n<=6) with 150 grid schemes; "
-                  "alg: 3000 sampled (dataset n<=6, scheme) pairs x 26 (configuration, cplex mode) runs, ExactPulp on 1/3",
+                  "alg: 3000 sampled (dataset n<=6, scheme) pairs x 20-21 (configuration, cplex mode) runs, ExactPulp on 1/3",
          "thorough": "th: 701 datasets x 31 schemes + 60000 sampled (n<=7) with 400 grid schemes; "
-                     "alg: 30000 sampled (dataset n<=7, scheme) pairs x 26 runs, ExactPulp on 1/3"}
+                     "alg: 30000 sampled (dataset n<=7, scheme) pairs x 20-21 runs, ExactPulp on 1/3"}
 CHUNK = 4
 TIMEOUT = 300
 ASSUMPTIONS = ["cplex stand-in: /verif/bounded/standin_cplex.py replaces the proprietary cplex module (complete 0/1 "
@@ -47,8 +47,7 @@ ASSUMPTIONS = ["cplex stand-in: /verif/bounded/standin_cplex.py replaces the pro
 PARCONS = ["ParCons", "ParCons(bound=0)", "ParCons(bound=2,aux=KwikSort)", "ParCons(bound=0,aux=BioCo)"]
 HEURISTICS = ["BioConsert", "BioConsert[Copeland,KwikSort]", "BioConsert[PickAPerm]", "BioCo", "KwikSortRandom", "Borda",
               "BordaBucketId", "Copeland", "PickAPerm"]
-STANDIN_EXACT = ["Cplex(optimize=True)", "Cplex(optimize=False)", "CplexOptim1", "Exact(optimize=True)",
-                 "Exact(optimize=False)"]
+STANDIN_EXACT = ["Cplex(optimize=True)", "Cplex(optimize=False)", "CplexOptim1"]   # the selector is C05's subject
 TINY = 2.0 ** -10
 
 
@@ -100,6 +99,12 @@ def _block_dataset(rng, n):
 def _is_sparse(rankings):
     u = D.universe_of(rankings)
     return any(len(u) - sum(len(b) for b in r) >= 2 for r in rankings)
+
+
+def _is_mixed(rankings):
+    """some names are integer-like strings / ints and some are not: the Dataset keeps every name a string"""
+    u = [str(x) for x in D.universe_of(rankings)]
+    return any(x.isdigit() for x in u) and not all(x.isdigit() for x in u)
 
 
 def _is_tiny(scheme):
@@ -209,6 +214,7 @@ def check_case(case):
     fails, evals = [], 0
     category = "tiny-scaled scheme" if _is_tiny(scheme) else "sparse dataset" if _is_sparse(exp_r) else "generic"
     minpos = min([v for v in scheme[0] + scheme[1] if v > 0] or [1.0])
+    illsfx = " (mixed integer-like / other names)" if _is_mixed(rankings) else ""
     tab = O.cost_table(universe, exp_r, scheme[0], scheme[1])
     if n <= 5:
         opt, optima = O.optimum_enum(universe, tab)
@@ -275,7 +281,8 @@ def check_case(case):
             site = "%s, %s%s" % (name, mode, "" if category == "generic" else " (%s)" % category)
         wf = algs.well_formed(cons, set(universe), False)
         if wf is not None:
-            fails.append({"clause": "C06.optflag", "site": site + ": ill-formed consensus marked optimal",
+            fails.append({"clause": "C06.optflag",
+                          "site": "%s, %s: ill-formed consensus marked optimal%s" % (name, mode, illsfx),
                           "detail": {"config": name, "cplex": mode, "problem": wf}})
             return
         for r in cons.consensus_rankings:
@@ -304,7 +311,7 @@ def check_case(case):
                 continue
             wf = algs.well_formed(cons, set(universe), True)
             if wf is not None:
-                fails.append({"clause": "C06.respects", "site": "%s: ill-formed consensus" % name,
+                fails.append({"clause": "C06.respects", "site": "ParCons consensus ill-formed" + illsfx,
                               "detail": {"config": name, "cplex": mode, "problem": wf}})
                 continue
             raw = A.ranking_to_raw(cons.consensus_rankings[0])
